@@ -1674,11 +1674,21 @@ func (d *Dot11InformationElement) String() string {
 
 func (m Dot11InformationElement) SerializeTo(b gopacket.SerializeBuffer, opts gopacket.SerializeOptions) error {
 	length := len(m.Info) + len(m.OUI)
+	if m.ID == 255 {
+		// Element ID extension: the extension ID octet precedes the information.
+		length++
+	}
 	if buf, err := b.PrependBytes(2 + length); err != nil {
 		return err
 	} else {
 		buf[0] = uint8(m.ID)
 		buf[1] = uint8(length)
+		if m.ID == 255 {
+			buf[2] = uint8(m.ExtensionID)
+			copy(buf[3:], m.OUI)
+			copy(buf[3+len(m.OUI):], m.Info)
+			return nil
+		}
 		copy(buf[2:], m.OUI)
 		copy(buf[2+len(m.OUI):], m.Info)
 	}
